@@ -78,7 +78,7 @@ META = dict(
     trusted_base=["CBMC 6.11, minisat", "vlib/cfgen.py: the reference C function is produced from the same construction as the wasm bytes by a deliberately naive scheme "
                   "(operand array indexed by static height, structured if/else, 'copy carried value; goto label' for branches, nothing for dead code) - independent of w2c2's typed slot naming",
                   "the enumerated family of bodies + the paper composition argument (DESIGN.md 2.1) stand for 'all valid function bodies'"],
-    assumptions=["program shapes: 16 named shapes taken from the property text + seeded random structured bodies (60 quick / 600 thorough), nesting depth <= 3",
+    assumptions=["E/S emitter contracts: array.c's growth step enters through the contract stub of harness/e_expr.c (discharged on the real array.c by job A.ensure_capacity.4, realloc/calloc being CBMC's library models); stack heights <= 2^24, label stacks <= 2^16; the string builder is the ghost recorder (its real implementation is under contract in C10); operand-stack entries hold valid value types (validated module)", "S jobs (block/loop/if): the enclosed code enters through the induction hypothesis c_inner of harness/e_block.c (returns at its end/else, label stack balanced, entries below the label height untouched, dead code stays dead); the induction over the nesting structure itself is on paper", "program shapes: 16 named shapes taken from the property text + seeded random structured bodies (60 quick / 600 thorough), nesting depth <= 3",
                  "loops iterate at most 4 times (input-dependent, unwinding assertions discharged)"],
     explanation="For each generated body CBMC proves, for all 2^64 argument pairs and all initial global values, that the C function generated by the freshly built w2c2 "
                 "returns the reference result, traps exactly when the reference reaches unreachable, and leaves the same global state.",
